@@ -92,11 +92,25 @@ def gen_vocab(tier, rnd):
             at_end_only = args == [] or (kind in ('wordword', 'wordformat') and len(args) == 1)
             for ctx in (['alone', 'after'] if at_end_only else ['alone', 'after', 'before', 'paren', 'mid']):
                 lines.append(prim_request('P', kw, args, ctx))
+    # every keyword mangled into a non-keyword: one character appended, dropped, changed in case, doubled dash
+    allkw = set(KW) | {'-a', '-and', '-o', '-or', '!', '(', ')', ','}
+    mangled = set()
+    for kw in KW:
+        for m in [kw + 'x', kw + '0', kw + '-', kw[:-1], kw.upper(), '-' + kw, kw[1:], kw + kw[-1]]:
+            if m and m not in allkw and m.lower() != m or (m and m not in allkw):
+                mangled.add(m)
+    for m in sorted(mangled):
+        if m in allkw or m in ('', '-'):
+            continue
+        for ctx in ['alone', 'after', 'before']:
+            lines.append('P %s #unknownword=%s' % (hx(in_ctx(ctx, m)), hx(m)))
+        lines.append('P %s #unknownword=%s' % (hx(m + ' 5'), hx(m)))
+        lines.append('P %s #unknownword=%s' % (hx(m + ' x y'), hx(m)))
     # unknown words
     for w in ['bogus', '-zzz', '@@', 'foo.bar', '-Name', '-PRINT', '--print', '-lname']:
         for ctx in ['alone', 'after', 'before']:
             lines.append('P %s #unknownword=%s' % (hx(in_ctx(ctx, w)), hx(w)))
-    return lines, {'rule': 'every keyword of the vocabulary (%d) x members of its argument language (fixed boundary-rich list + %d random per keyword) x 7 contexts, and x systematic non-members (missing argument, trailing/embedded junk, out-of-range) x up to 5 contexts; non-trivial = every request'
+    return lines, {'rule': 'every keyword of the vocabulary (%d) x members of its argument language (fixed boundary-rich list + %d random per keyword) x 7 contexts, and x systematic non-members (missing argument, trailing/embedded junk, out-of-range) x up to 5 contexts; every keyword mangled into a non-keyword (one character appended, dropped, case changed, dash doubled or dropped), alone, in context and followed by would-be arguments; non-trivial = every request'
                    % (len(KW), mult * 4), 'streams': {'vocab': len(lines)}}
 
 
